@@ -197,7 +197,8 @@ CLAIMED["C17"] = dict(
          "interleaving of child, readers, monitor and caller and every timing of wait() time-outs, idle kills and stop(): at "
          "`stopped` each (not abandoned) queue holds exactly the lines written, once, in order, and is closed, closed only after "
          "the last line; returncode is the exit status; join() returns only after exit, normally only for exit 0 of an unkilled "
-         "child and raises iff status != 0 or killed (unless the program called stop()); L1: join() cannot hang. The pinned tree "
+         "child and raises iff status != 0 or killed (unless the program called stop()); L1: join() cannot hang; L2 (C17_join_returns): "
+         "for a child that ends by itself every schedule takes at most an explicit rank of steps and ends with join() returned. The pinned tree "
          "lost lines (readers stopped at reaping / the other pipe's EOF) and raised TIMEOUT for /bin/true: two fix: commits. "
          "Open known finding: a consumer that does not drain the queue loses lines when the monitor abandons the reader.",
     design="§5 C17, §7", technique="Lean 4 inductive invariant + L1 quiescence theorem + trace acceptance of the real Process over a scripted Popen stub + sampled real children",
